@@ -176,10 +176,14 @@ def shape(line):
 def nontrivial(line, out):
     return ("raw:" in out or "fp:" in out or "err:InvalidSize" in out)
 
+import re as _re
+def _nk(s): return _re.sub(r"err:\w+", "err", s)
+
 def oracle(line, out, expect):
     """independent judgement of the implementation's outcome"""
     if "panic" in out.split() or "crashed" in out or "spin" in out.split():
         return "deframing crashed: " + out
-    if expect is not None and out != expect:
+    # the property demands "an error", not a particular error kind: kinds are compared only by the correspondence
+    if expect is not None and _nk(out) != _nk(expect):
         return "expected `%s` (reference framing), implementation returned `%s`" % (expect, out)
     return None
